@@ -60,5 +60,20 @@ func (a jsonArray) Patch(d Diff) (JsonNode, error) {
 func (a jsonArray) patch(pathBehind, pathAhead Path, before, oldValues, newValues, after []JsonNode, strategy patchStrategy) (JsonNode, error) {
 	_, metadata, _ := pathAhead.next()
 	n := dispatch(a, metadata)
-	return n.patch(pathBehind, pathAhead, before, oldValues, newValues, after, strategy)
+	patched, err := n.patch(pathBehind, pathAhead, before, oldValues, newValues, after, strategy)
+	if err != nil {
+		return nil, err
+	}
+	// The array was read as a list, set or multiset for this hunk only:
+	// hand back a plain array, so that the patched document is read by
+	// the options of whatever is done with it next (Equals, Diff, Patch).
+	switch p := patched.(type) {
+	case jsonList:
+		return jsonArray(p), nil
+	case jsonSet:
+		return jsonArray(p), nil
+	case jsonMultiset:
+		return jsonArray(p), nil
+	}
+	return patched, nil
 }
